@@ -472,13 +472,15 @@ template<class K, class V> struct Case : public Look {
          while (mod[0].size() < center - 12 && !caseBad) { uint32 k = nextKey++, v = 1 + rv(); if (tab[0]->Put(KK(k), VV(v)).IsError()) Fail("", "Put failed"); mod[0].insertBefore(mod[0].l.end(), k, v); if (!big || (mod[0].size() & 1023) == 0) NoteWidth(0); }
          NoteWidth(0); Audit(0, true);
       }
-      target = center ? center : targets[R(sizeof(targets) / sizeof(targets[0]))]; uint32 phaseLeft = 0; bool up = true;
+      target = center ? center : targets[R(sizeof(targets) / sizeof(targets[0]))]; uint32 phaseLeft = 0; bool up = true, calm = false;   // calm phases: no reordering operations, so that traversals can be judged by (b) and (c)
       for (uint32 step = 0; step < nops && !caseBad; step++) {
+         if (phaseLeft == 0) calm = (R(2) == 0);
          if (phaseLeft == 0) { clearBudget = (md == M_OPS || md == M_SURFACE) ? true : (R(12) == 0 && !big); if (center) { up = !up; target = up ? center + 1 + R(14) : center - 2 - R(14); phaseLeft = 20 + R(60); } else { target = targets[R(sizeof(targets) / sizeof(targets[0]))]; if (ks < 2 * target) target = ks / 2; phaseLeft = 30 + R(90); } }
          phaseLeft--;
          int op = -1; uint32 pop = (uint32)mod[0].size();
          if (pop != target && R(100) < steerPct) op = (pop < target) ? O_PUT : (R(4) ? O_REMOVE : (R(2) ? O_REMOVEFIRST : O_REMOVELAST));
          if (op < 0) { int x = R(wsum); for (int i = 0; i < NUM_OPS; i++) { if (x < w[i]) { op = i; break; } x -= w[i]; } }
+         if (calm && (op == O_MTF || op == O_MTB || op == O_MBEFORE || op == O_MBEHIND || op == O_MPOS || op == O_PUTPOS || op == O_SORTKEY || op == O_SORTVAL || op == O_GETMOVE || op == O_PUTFRONT || op == O_PUTBACK || op == O_PUTBEFORE || op == O_PUTBEHIND || op == O_PUTOWN)) op = R(4) == 0 ? O_NEWITER : (R(3) ? O_ADVANCE : O_PUT);
          uint32 s0 = tab[0]->GetNumAllocatedItemSlots(), s1 = tab[1]->GetNumAllocatedItemSlots();
          Step(op);
          if (caseBad) break;
@@ -500,7 +502,7 @@ template<class K, class V> struct Case : public Look {
       if (!caseBad && Own::live != live0) { opname = "end of case"; Fail("live|payloads-after-destruction", vh::fmt("%ld value payloads alive after the tables and iterators were destroyed", Own::live - live0)); }
       bool nontrivial = center ? (widthChanges > 0) : (maxPop > 7 && trav > 0);
       vh::distinct(vh::fnv(&cs, sizeof(cs), vh::fnvs(typeName + modeName)), nontrivial);
-      vh::statmax("max_population", maxPop); vh::stat("iterator_traversals_completed_under_mutation", 0); (void)travMut; (void)kcase;
+      vh::statmax("max_population", maxPop); (void)travMut; (void)kcase;
       if (widthChangesLive) vh::stat("cases_with_index_width_change_under_live_iterators");
    }
    ~Case() { ts.DeleteIterators(); delete tab[0]; delete tab[1]; }
@@ -549,9 +551,11 @@ template<class TT, class K, class V, bool byValue> struct OrdCase : public Look 
    }
    void Run(uint64_t cs)
    {
-      const long live0 = Own::live; ks = R(4) == 0 ? 700 : (R(3) == 0 ? 20 : 80); vr = byValue ? 30 : 100000; uint32 nops = ks > 100 ? 250 + R(250) : 300 + R(600); uint32 maxIters = 1 + R(4); long middleInserts = 0;
+      const long live0 = Own::live; ks = R(4) == 0 ? 700 : (R(3) == 0 ? 20 : 80); vr = byValue ? 30 : 100000; uint32 nops = ks > 100 ? 250 + R(250) : 300 + R(600); uint32 maxIters = 1 + R(4); long middleInserts = 0; bool calm = false;
       for (uint32 step = 0; step < nops && !caseBad; step++) {
          uint32 o = R(100), k = 1 + R(ks), v = R(vr); status_t r; const uint64_t idBefore = g_nextId; if (R(3) == 0 && om.size()) { typename std::map<uint32, MV>::iterator f = om.lower_bound(k); if (f != om.end()) k = f->first; }
+         if (step % 60 == 0) calm = (R(2) == 0);
+         if (calm) { if ((o >= 55 && o < 61) || (o >= 64 && o < 69) || (o >= 72 && o < 76)) o = 84 + R(16); else if (o < 38 && om.count(k) && (byValue || !sortedExpected)) { for (int q = 0; q < 6 && om.count(k); q++) k = 1 + R(ks); if (om.count(k)) o = 84 + R(16); } }
          const bool hk = om.count(k) > 0;
          if (o < 38) { OP("Put %u=%u", k, v); r = t->Put(KK(k), VV(v)); if (r.IsError()) Fail("", "failed"); if (!autoOn && (!hk || (byValue && om[k].v != v))) sortedExpected = false; mPut(k, v); }
          else if (o < 50) { OP("Remove %u", k); r = t->Remove(KK(k)); if (r.IsOK() != hk) Fail("", "status"); mErase(k); }
